@@ -179,10 +179,10 @@ pub fn rule_text(prop: u8) -> &'static str {
         6 => "state by history + sorted consumption programs; non-trivial = a sorted consumption on >=3 elements with ties (DPQ: with a direction switch before exhaustion); distinct = hash of the case",
         7 => "receiver state + bulk op (extend/append/from_vec/from_iter/convert) with generated duplication and legal size hints, each extend/from_iter repeated under 10 hint modes; non-trivial = duplicate id or clash with n+k>=8, the metamorphic relation ran, and both strategies were predicted among the modes for some extend; distinct = hash of the case",
         8 => "state + retain/retain_mut/iter_mut/pop_if with generated masks and rewrites; non-trivial = size>=3, the call changed something (dropped and kept, or rewrote a priority), followed by a checked extraction; distinct = hash of the case",
-        9 => "histories dominated by iter_mut / (&mut q).into_iter() call programs over {next,next_back,len+size_hint probe} with every yielded reference kept alive and written through, and by 34 std adaptor / iterator-method compositions (rev, take, skip, step_by, nth, nth_back, rfold, find, ...) applied to the real IterMut type and compared with the same composition over the plain sequence; plus the complete enumeration described under exhaustive_subspace; non-trivial = n>=2 and >=2 elements yielded in one program (or an adaptor run on n>=2); distinct = hash of the case",
+        9 => "histories dominated by iter_mut / (&mut q).into_iter() call programs over {next,next_back,len+size_hint probe} with every yielded reference kept alive and written through, and by 40 std adaptor / iterator-method compositions (rev, take, skip, step_by, nth, nth_back, rfold, find, ...) applied to the real IterMut type and compared with the same composition over the plain sequence; plus the complete enumeration described under exhaustive_subspace; non-trivial = n>=2 and >=2 elements yielded in one program (or an adaptor run on n>=2); distinct = hash of the case",
         11 => "state + push_increase/push_decrease with offered priority lower/equal/higher; non-trivial = item present, size>=3, and the equal class or a move occurred; distinct = hash of the case",
         12 => "history over items with payload; non-trivial = a priority update of a present item issued with a different payload, a payload write, and a slot-renaming removal; distinct = hash of the case",
-        13 => "call programs over {next,next_back,len+size_hint probe} on iter, &q, into_iter, drain and the sorted iterators, and 34 std adaptor / iterator-method compositions applied to the real iterator types and compared (sequence, len, size_hint) with the same composition over the plain sequence; plus the complete enumeration described under exhaustive_subspace; non-trivial = n>=2 and a probe after an advance, or an adaptor whose length differs from n; distinct = hash of the case",
+        13 => "call programs over {next,next_back,len+size_hint probe} on iter, &q, into_iter, drain and the sorted iterators, and 40 std adaptor / iterator-method compositions applied to the real iterator types and compared (sequence, len, size_hint) with the same composition over the plain sequence; plus the complete enumeration described under exhaustive_subspace; non-trivial = n>=2 and a probe after an advance, or an adaptor whose length differs from n; distinct = hash of the case",
         15 => "state + serde round trip through 3 carriers as same/other kind; non-trivial = a round trip on >=3 elements with ties, or a deserialized pair sequence that repeats an item; distinct = hash of the case",
         16 => "state + clear/drain (consumption program, drop or forget) + continuation; non-trivial = size>=2 before, partial consumption or leak or clear, then >=3 further ops including an extraction; distinct = hash of the case",
         17 => "history with capacity ops interleaved; non-trivial = >=2 capacity ops on a non-empty queue and a later checked extraction; distinct = hash of the case",
